@@ -8,8 +8,15 @@ pub mod checks;
 pub fn all_subs() -> Vec<vcore::Sub> {
     let mut v = Vec::new();
     v.extend(checks::c01::subs());
+    v.extend(checks::c03::subs());
+    v.extend(checks::c04::subs());
     v.extend(checks::c05::subs());
+    v.extend(checks::c06::subs());
+    v.extend(checks::c07::subs());
+    v.extend(checks::c11::subs());
     v.extend(checks::c12::subs());
+    v.extend(checks::c13::subs());
+    v.extend(checks::c19::subs());
     v
 }
 
